@@ -65,3 +65,17 @@ Fixpoint zdup (seen l : list Z) : bool :=
   match l with [] => false | x :: r => z_mem x seen || zdup (x :: seen) r end.
 Definition ids_ok (ids refs : list Z) : bool :=
   negb (zdup [] ids) && forallb (fun r => z_mem r ids) refs.
+
+(* ---------------------------------------------------------------- key references across levels *)
+(* XSD (3.11.4, node tables): a keyref declared on an ancestor of the key's scope element refers to the union of the
+   key tables of the scope instances below it, without the values that occur in more than one of them. *)
+Definition count_tables (v : ctuple) (tables : list (list ctuple)) : nat :=
+  length (filter (ct_mem v) tables).
+Definition propagated (tables : list (list ctuple)) : list ctuple :=
+  filter (fun v => Nat.eqb (count_tables v tables) 1) (concat tables).
+Definition ancestor_keyref_errors (tables : list (list ctuple)) (ts : list tuple) : list ierr :=
+  keyref_errors (propagated tables) ts.
+(* identities.py KeyrefCounter.iter_errors uses the counter of the referred constraint, which is reset for every
+   scope instance: only the last instance's table is visible from the ancestor *)
+Definition last_table_keyref_errors (tables : list (list ctuple)) (ts : list tuple) : list ierr :=
+  keyref_errors (last tables []) ts.
